@@ -339,3 +339,26 @@ MUTANTS += [
          old="    scaler.fit(Y_train)\n    Y_train = scaler.transform(Y_train)\n    Y_test = scaler.transform(Y_test)\n\n    predictions_Y_test",
          new="    scaler.fit(Y_train)\n    Y_test = Y_test - Y_train.mean(axis=0)\n    Y_train = Y_train - Y_train.mean(axis=0)\n\n    predictions_Y_test"),
 ]
+
+QS = "src/skmatter/clustering/_quick_shift.py"
+MUTANTS += [
+    # ---------------------------------------------------------------- C16
+    dict(name="c16_path_to_first_root", prop="C16", file=QS,
+         old="            idxroot[qspath] = idxroot[idxroot[current]]", new="            idxroot[qspath] = idxroot[current]"),
+    dict(name="c16_cutoff_of_candidate", prop="C16", file=QS,
+         old="            if probs[j] > probs[idx] and distmm[idx, j] < min(dmin, cutoff):", new="            if probs[j] > probs[idx] and distmm[idx, j] < min(dmin, self.dist_cutoff_sq[j]):"),
+    dict(name="c16_weights_ge", prop="C16", file=QS,
+         old="            if probs[j] > probs[idx] and distmm[idx, j] < dmin and neighs[j]:", new="            if probs[j] >= probs[idx] and distmm[idx, j] < dmin and neighs[j] and j != idx - 1:"),
+    dict(name="c16_gabriel_le", prop="C16", file=QS,
+         old="            if np.sum(dist_matrix_sq[i] + dist_matrix_sq[j] < dist_matrix_sq[i, j]):", new="            if np.sum(dist_matrix_sq[i] + dist_matrix_sq[j] < 1.05 * dist_matrix_sq[i, j]):"),
+    dict(name="c16_shell_off_by_one", prop="C16", file=QS,
+         old="        for _ in range(1, self.gabriel_shell):", new="        for _ in range(0, self.gabriel_shell):"),
+    dict(name="c16_nn_fallback_dropped", prop="C16", file=QS,
+         old="        if probs[idxn] > probs[idx]:\n            next_idx = idxn", new="        if probs[idxn] > probs[idx] and cutoff > 1e-2:\n            next_idx = idxn"),
+    dict(name="c16_scale_not_squared", prop="C16", file=QS,
+         old="            self.dist_cutoff_sq *= self.scale**2", new="            self.dist_cutoff_sq *= self.scale"),
+    dict(name="c16_gabriel_asymmetric", prop="C16", file=QS,
+         old="                gabriel[i, j] = False\n                gabriel[j, i] = False", new="                gabriel[i, j] = False\n                gabriel[j, i] = False if (i + j) % 7 else True"),
+    dict(name="c16_order_dependent_first_max", prop="C16", file=QS,
+         old="                if idxroot[idxroot[current]] != -1:\n                    # Found a path to a root\n                    break", new="                if idxroot[idxroot[current]] != -1:\n                    # Found a path to a root\n                    if len(qspath) > 2 and i % 2:\n                        idxroot[qspath[:-1]] = idxroot[current]\n                        qspath = qspath[-1:]\n                    break"),
+]
